@@ -123,6 +123,8 @@ func NewSchema(config SchemaConfig) (Schema, error) {
 		}
 	}
 
+	schema.buildPossibleTypeMap()
+
 	// Enforce correct interface implementations
 	for _, ttype := range schema.typeMap {
 		if ttype, ok := ttype.(*Object); ok {
@@ -163,6 +165,8 @@ func (gq *Schema) AddImplementation() error {
 			}
 		}
 	}
+
+	gq.buildPossibleTypeMap()
 
 	// Enforce correct interface implementations
 	for _, ttype := range gq.typeMap {
@@ -239,25 +243,33 @@ func (gq *Schema) PossibleTypes(abstractType Abstract) []*Object {
 	return []*Object{}
 }
 func (gq *Schema) IsPossibleType(abstractType Abstract, possibleType *Object) bool {
-	possibleTypeMap := gq.possibleTypeMap
-	if possibleTypeMap == nil {
-		possibleTypeMap = map[string]map[string]bool{}
+	// The table is filled when the schema is built (it is shared by every
+	// copy of the Schema value and read concurrently during execution).
+	if typeMap, ok := gq.possibleTypeMap[abstractType.Name()]; ok {
+		return typeMap[possibleType.Name()]
 	}
-
-	if typeMap, ok := possibleTypeMap[abstractType.Name()]; !ok {
-		typeMap = map[string]bool{}
-		for _, possibleType := range gq.PossibleTypes(abstractType) {
-			typeMap[possibleType.Name()] = true
+	for _, candidate := range gq.PossibleTypes(abstractType) {
+		if candidate.Name() == possibleType.Name() {
+			return true
 		}
-		possibleTypeMap[abstractType.Name()] = typeMap
-	}
-
-	gq.possibleTypeMap = possibleTypeMap
-	if typeMap, ok := possibleTypeMap[abstractType.Name()]; ok {
-		isPossible, _ := typeMap[possibleType.Name()]
-		return isPossible
 	}
 	return false
+}
+
+// buildPossibleTypeMap records, for every abstract type of the schema,
+// the names of its possible object types.
+func (gq *Schema) buildPossibleTypeMap() {
+	possibleTypeMap := map[string]map[string]bool{}
+	for _, ttype := range gq.typeMap {
+		if abstractType, ok := ttype.(Abstract); ok && IsAbstractType(ttype) {
+			typeMap := map[string]bool{}
+			for _, possibleType := range gq.PossibleTypes(abstractType) {
+				typeMap[possibleType.Name()] = true
+			}
+			possibleTypeMap[abstractType.Name()] = typeMap
+		}
+	}
+	gq.possibleTypeMap = possibleTypeMap
 }
 
 // AddExtensions can be used to add additional extensions to the schema
